@@ -81,6 +81,8 @@ def simple_font(widths=None, first=32, name="F1", base="Helvetica"):
     d = {"Type": Name("Font"), "Subtype": Name("Type1"), "BaseFont": Name(base)}
     if widths is not None:
         d.update({"FirstChar": first, "Widths": list(widths)})
+        d["FontDescriptor"] = {"Type": Name("FontDescriptor"), "FontName": Name(base), "Flags": 32, "Ascent": 750, "Descent": -250,
+                               "FontBBox": [0, -250, 1000, 750], "ItalicAngle": 0, "CapHeight": 700, "StemV": 80}
     return d
 
 
